@@ -128,7 +128,9 @@ func (r *rng) genOf(k kind, depth int) *SX {
 			}
 			return L(xs...)
 		case 3:
-			return L(A("custom"), L(A("draw"), A("c"), r.genOf(kInt, depth-1)), r.customTail(), L(A("ret"), A("c")))
+			xs := []*SX{A("custom"), L(A("draw"), A("c"), r.genOf(kInt, depth-1))}
+			xs = append(xs, r.customTail()...)
+			return L(append(xs, L(A("ret"), A("c")))...)
 		case 4:
 			return L(A("deferred"), r.genOf(kInt, depth-1))
 		case 5:
@@ -183,20 +185,41 @@ func (r *rng) genOf(k kind, depth int) *SX {
 	panic("kind")
 }
 
-// statement inside a custom body between the draw and the ret: sometimes skips
-func (r *rng) customTail() *SX {
-	switch r.intn(6) {
-	case 4:
-		return L(A("if"), L(A("mod"), A("c"), N(5), N(0)), L(A("error"), N(int64(r.intn(4)))))
-	case 5:
-		return L(A("cleanup"), L(A("error"), N(int64(r.intn(4)))))
-	case 0:
-		return L(A("if"), L(A("mod"), A("c"), N(3), N(0)), L(A("skip")))
-	case 1:
-		return L(A("if"), L(A("lt"), A("c"), N(0)), L(A("skip")))
-	default:
-		return L(A("emit"), N(int64(r.intn(9))))
+// statements inside a custom body between the draw and the ret: sometimes skip, fail (fatally or not), panic,
+// register a cleanup that fails or skips
+func (r *rng) customTail() []*SX {
+	site := func() (*SX, bool) {
+		if r.customFatal >= 8 {
+			return nil, false
+		}
+		r.customFatal++
+		return N(int64(8 + r.customFatal - 1)), true
 	}
+	switch r.intn(10) {
+	case 4:
+		return []*SX{L(A("if"), L(A("mod"), A("c"), N(5), N(0)), L(A("error"), N(int64(r.intn(4)))))}
+	case 5:
+		return []*SX{L(A("cleanup"), L(A("error"), N(int64(r.intn(4)))))}
+	case 0:
+		return []*SX{L(A("if"), L(A("mod"), A("c"), N(3), N(0)), L(A("skip")))}
+	case 1:
+		return []*SX{L(A("if"), L(A("lt"), A("c"), N(0)), L(A("skip")))}
+	case 6:
+		if s, ok := site(); ok {
+			return []*SX{L(A("if"), L(A("mod"), A("c"), N(4), N(0)), L(A("fatal"), s))}
+		}
+	case 7: // a fatal failure whose panic is replaced by the skip of a cleanup on the way up
+		if s, ok := site(); ok {
+			return []*SX{L(A("cleanup"), L(A("skip"))), L(A("if"), L(A("mod"), A("c"), N(2), N(0)), L(A("fatal"), s))}
+		}
+	case 8:
+		return []*SX{L(A("cleanup"), L(A("skip")))}
+	case 9:
+		if s, ok := site(); ok {
+			return []*SX{L(A("if"), L(A("mod"), A("c"), N(6), N(0)), L(A("panic"), s))}
+		}
+	}
+	return []*SX{L(A("emit"), N(int64(r.intn(9))))}
 }
 
 func (r *rng) anyGen(depth int) (*SX, kind) {
@@ -359,6 +382,7 @@ func (g *progGen) repeatStmt() *SX {
 
 // a random property program of up to n statements
 func (r *rng) program(n int) *SX {
+	r.customFatal = 0
 	g := &progGen{r: r, kinds: map[string]kind{}}
 	var out []*SX
 	m := 1 + r.intn(n)
